@@ -41,6 +41,12 @@ OBLIGATIONS = [
      "statement": "the read loop delivers exactly the data answers before the first non-data answer, in order, each once, stops there, and closes iff that answer is eof/error"},
     {"id": "C01_T5", "theorem": "Iora.C01.T5_per_thread_fifo", "kind": "proved",
      "statement": "for every schedule of enqueue micro-steps under the mutex and every thread count: the dispatched ++ queued commands of thread t are exactly 0..k-1 in order with k = (completed enqueue calls of t) + (1 if t is between its store and its unlock) — so nothing is lost, duplicated or reordered — and every queued command belongs to one of the n threads"},
+    {"id": "C01_one_command", "theorem": "Iora.C01.send_is_one_command", "kind": "proved",
+     "statement": "one accepted send is one command: after any schedule the number of commands of thread t equals the number of its stored send calls, none twice, sequence numbers exactly 0..k-1"},
+    {"id": "C01_contiguous", "theorem": "Iora.C01.one_send_contiguous_on_wire", "kind": "proved",
+     "statement": "accepted = the non-empty payloads of the Send commands in dispatch order; for every history/fault sequence and every accepted payload p: open => wire ++ pending = (whole payloads before) ++ p ++ (whole payloads after), always wire is a prefix of it — the bytes of one accepted send are one block"},
+    {"id": "C01_T5_T1", "theorem": "Iora.C01.T5_T1_one_send_contiguous", "kind": "proved",
+     "statement": "T1 o T5: for any number of sender threads and every enqueue schedule, if the session's Send commands are the dispatched commands in dispatch order, each dispatched send's bytes are contiguous on the wire between the bytes of the commands dispatched before and after it"},
     {"id": "C01_T5_mutex_needed", "theorem": "Iora.C01.T5_needs_mutex", "kind": "proved",
      "statement": "without the mutex a 2-thread schedule loses a command (the translator fact is load-bearing)"},
     {"id": "C01_T6", "theorem": "Iora.C01.T6_drop_only_with_close", "kind": "proved",
@@ -207,20 +213,34 @@ def base_case(rng, idx, **kw):
     c = {"id": idx, "role": rng.choice(["srv", "cli"]), "tls": int(rng.chance(1, 3)), "et": int(rng.chance(1, 2)), "batch": int(rng.chance(1, 3)),
          "thr": 1, "sndbuf": 0, "rcvbuf": 0, "prcvbuf": 0, "mwq": 1024, "cob": 1, "chunk": 65536, "early": 0, "hsdelay": 0, "expectend": 0,
          "sends": [], "wf": [], "rf": [], "hf": [], "wd": [], "peer": [65536, 0, 0], "pw": [], "echo": [], "pclose": -1, "cat": "boundary",
-         "gp": "", "async": 0, "nolock": 0, "s2": []}
+         "gp": "", "async": 0, "nolock": 0, "s2": [], "gate": 0}
     c.update(kw)
     return c
 
 
-def gen_boundary_cases(rng, start, n):
+def gen_boundary_cases(rng, start, n, big_ok=False):
     """Boundary stream: every cut position of tiny payloads (0, 1, len-1, len) for the direct write and for the queued front;
     the backpressure limit at k / k+1 queued buffers; read sizes around ioReadChunk; payload sizes around the TLS record size."""
     out = []
     i = start
     cuts = ["c0", "c1", "m1", "m0", "c2", "m2"]
     while len(out) < n:
-        k = len(out) % 8
-        if k == 5:      # the plain connect window: connect completion reported late ("not yet" 1-3 times), sends queued meanwhile
+        k = len(out) % 9
+        if k == 8:      # ONE accepted send is ONE command: thread 0 makes one send() call with a payload above every plausible chunking
+            # constant (64 KiB, 128 KiB, 256 KiB, 1 MiB, several MiB); the other unlocked senders are released when the engine's command
+            # counter has moved, and a send() that comes back for the queue mutex a second time is held until they are through —
+            # if the payload is queued in pieces, another sender's frame lands INSIDE it and the peer-side frame monitor sees it
+            thr = rng.range(2, 4)
+            big = rng.choice([65537, 131073, 262145, 524288, 524289, 1048577, 2097153] + ([4194305] if big_ok else []))
+            sends = [[big, 0, 0, 0]] + [[rng.choice([8, 9, 64, 100, 200]), 0, t, 0] for t in range(1, thr) for _ in range(rng.range(1, 3))]
+            if rng.chance(1, 2):
+                sends.append([rng.choice([8, 3000, 70000]), 0, 0, 0])
+            c = base_case(rng, i, thr=thr, nolock=1, gate=1, sends=sends, sndbuf=rng.choice([0, 0, 32768]),
+                          wf=no_edge(rng, [rng.choice(["p", "p", "f500", "c16384", "a"]) for _ in range(rng.range(0, 5))]),
+                          cat="boundary-one-send-one-command", **{"async": int(rng.chance(1, 3))})
+            if c["tls"]:
+                c["wf"] = ["w" if x == "a" else x for x in c["wf"]]
+        elif k == 5:      # the plain connect window: connect completion reported late ("not yet" 1-3 times), sends queued meanwhile
             sends = [[rng.choice([1, 100, 5000, 40000]), rng.range(0, 250), 0, 0] for _ in range(rng.range(1, 6))]
             c = base_case(rng, i, role="cli", tls=0, early=1, sends=sends, gp="n" * rng.range(1, 3),
                           wf=no_edge(rng, [rng.choice(["a", "a", "c1", "m1", "p", "f500"]) for _ in range(rng.range(1, 6))]), cat="boundary-connect-window")
@@ -289,9 +309,9 @@ def case_line(c):
     def lst(xs, sub="."):
         return ",".join(sub.join(str(v) for v in x) if isinstance(x, (list, tuple)) else str(x) for x in xs) if xs else "-"
     return ("case id=%s role=%s tls=%d et=%d batch=%d thr=%d sndbuf=%d rcvbuf=%d prcvbuf=%d mwq=%d cob=%d chunk=%d early=%d hsdelay=%d "
-            "expectend=%d lossy=%d async=%d nolock=%d gp=%s s2=%s pclose=%s peer=%s sends=%s pw=%s echo=%s wf=%s rf=%s hf=%s wd=%s") % (
+            "expectend=%d lossy=%d async=%d nolock=%d gate=%d gp=%s s2=%s pclose=%s peer=%s sends=%s pw=%s echo=%s wf=%s rf=%s hf=%s wd=%s") % (
         c["id"], c["role"], c["tls"], c["et"], c["batch"], c["thr"], c["sndbuf"], c["rcvbuf"], c["prcvbuf"], c["mwq"], c["cob"], c["chunk"],
-        c["early"], c["hsdelay"], c["expectend"], int(c["cob"] == 0 and c["mwq"] < 1024), c.get("async", 0), c.get("nolock", 0),
+        c["early"], c["hsdelay"], c["expectend"], int(c["cob"] == 0 and c["mwq"] < 1024), c.get("async", 0), c.get("nolock", 0), c.get("gate", 0),
         c.get("gp") or "-", lst(c.get("s2") or []), "-" if c["pclose"] < 0 else str(c["pclose"]), ".".join(str(v) for v in c["peer"]),
         lst(c["sends"]), lst(c["pw"]), lst(c.get("echo") or []), lst(c["wf"]), lst(c["rf"]), lst(c["hf"]), lst(c["wd"]))
 
@@ -404,6 +424,12 @@ def monitor(c, r):
     if not drop_policy and g("peer_diff") != -1:
         bad.append("T1: the peer's byte stream is not a prefix of the accepted payloads concatenated in accepted order: first difference at byte %d (peer read %d, accepted %d)"
                    % (g("peer_diff"), g("peer_rx"), g("exp_total")))
+    if c.get("nolock"):
+        if g("tag_err") != -1:
+            bad.append("T1/T5: unlocked concurrent senders: the peer's stream is not a sequence of whole, intact payloads in per-thread order (one accepted send must be contiguous on the wire): %s at byte %d (frames ok so far: %d)"
+                       % (f["tag_what"], g("tag_err"), g("tag_frames")))
+        elif f["close_why"] == "shutdown" and not g("stall") and g("tag_frames") != g("tag_accepted"):
+            bad.append("T5: %d sends were accepted from the unlocked sender threads but the peer received %d payloads" % (g("tag_accepted"), g("tag_frames")))
     taken = sum(int(t[2:]) for sg in r["segs"] for t in sg.split(";") if t.startswith("S:"))
     # stop() clears _running before it enqueues Shutdown: the loop may already have drained and closed the queue, so the final
     # Shutdown command (Q) is taken from the queue or legitimately refused; every other accepted command must be taken exactly once
@@ -412,12 +438,6 @@ def monitor(c, r):
         n_acc = len([a for a in r["acc"] if a != "Q" and not a.startswith("T")]) + g("tag_accepted")
     if not (n_acc <= taken <= n_acc + 1) and g("closed_cb") > 0:
         bad.append("T5: enqueue() accepted %d commands (+ Shutdown) but process()/shutdownDrain took %d from the queue (a command was lost or duplicated)" % (n_acc, taken))
-    if c.get("nolock"):
-        if g("tag_err") != -1:
-            bad.append("T5/T1: unlocked concurrent senders: the peer's stream is not a sequence of whole, intact payloads in per-thread order: %s at byte %d (frames ok so far: %d)"
-                       % (f["tag_what"], g("tag_err"), g("tag_frames")))
-        elif f["close_why"] == "shutdown" and not g("stall") and g("tag_frames") != g("tag_accepted"):
-            bad.append("T5: %d sends were accepted from the unlocked sender threads but the peer received %d payloads" % (g("tag_accepted"), g("tag_frames")))
     if g("s2") and not drop_policy and c["mwq"] >= 1024:
         if g("s2_diff") != -1:
             bad.append("T1: second session on the same engine: its peer's stream is not a prefix of what was sent to it (cross-talk / corruption) at byte %d" % g("s2_diff"))
@@ -626,11 +646,11 @@ def run(ctx: Ctx):
         cases = load_corpus()
         corners = [(et, b, tls, role) for et in (True, False) for b in (True, False) for tls in (True, False) for role in ("srv", "cli")]
         crng = rng.fork("cases")
-        nb = 60 if quick else 1000
+        nb = 72 if quick else 1008
         for i in range(n - nb):
             corner = corners[i % len(corners)] if i < len(corners) * (2 if quick else 20) else None
             cases.append(gen_case(crng, i, quick, corner))
-        cases += gen_boundary_cases(rng.fork("boundary"), n - nb, nb)
+        cases += gen_boundary_cases(rng.fork("boundary"), n - nb, nb, big_ok=not quick)
         workers = 6 if quick else 8
         # in rounds, so that a broken tree (where many cases end in the stall watchdog) is reported after the first failing round
         per_round = 100 if quick else 500
